@@ -151,17 +151,50 @@ Proof.
   do 16 (destruct l as [|? l]; [simpl in HL; lia|]). reflexivity.
 Qed.
 
-Lemma tamper_reserved_refuted_l :
-  (forall v2 l l', length l = length l' -> firstn 14 l = firstn 14 l' -> header_parse v2 l = header_parse v2 l') /\
-  exists l l' h, nth 14 l 0%N <> nth 14 l' 0%N /\ length l = length l' /\
-                 header_parse false l = Ok h /\ header_parse false l' = Ok h /\
-                 header_reexport false h = l /\ header_reexport false h <> l'.
+Lemma nth_firstn_lt {A} (d : A) : forall n i (l : list A), (i < n)%nat -> nth i (firstn n l) d = nth i l d.
 Proof.
-  split; [exact header_parse_ignores_reserved|].
-  exists [0; 16; 0; 135; 2; 0; 0; 0; 7; 0; 3; 0; 16; 0; 0; 0]%N, [0; 16; 0; 135; 2; 0; 0; 0; 7; 0; 3; 0; 16; 0; 1; 0]%N,
-         (16, 2, 7, 3, 0, 16).
-  repeat split; try reflexivity; vm_compute; intros E; discriminate E.
+  induction n as [|n IH]; intros i l H; [lia|]. destruct l as [|a t]; [now destruct i|].
+  destruct i as [|i]; [reflexivity|]. cbn [firstn nth]. apply IH. lia.
 Qed.
+
+(* the "Signed data as parsed" record: for ANY parser, if a byte inside the signed range is changed and the parser still
+   returns the same object, the record fails -- so the change is reported by a parse error, a changed object, or the record *)
+Lemma tamper_signed_range_reported_l v2 (parse : list N -> res container) b b' c :
+  parse b = Ok c -> signed_as_parsed v2 b c = true ->
+  (exists i, (i < length (signed_data v2 c))%nat /\ nth i b 0%N <> nth i b' 0%N) ->
+  match parse b' with Err _ => True | Ok c' => c' = c -> signed_as_parsed v2 b' c' = false end.
+Proof.
+  intros _ HS (i & Hi & Hn). destruct (parse b') as [c'|]; [|exact I]. intros ->.
+  unfold signed_as_parsed in *. apply eqb_list_spec in HS.
+  destruct (eqb_list (signed_data v2 c) (firstn (length (signed_data v2 c)) b')) eqn:E; [|reflexivity].
+  apply eqb_list_spec in E. exfalso. apply Hn.
+  rewrite <- (nth_firstn_lt 0%N _ i b Hi), <- (nth_firstn_lt 0%N _ i b' Hi). now rewrite <- HS, <- E.
+Qed.
+
+(* the concrete header parser: a flip confined to the reserved half word is not seen by the parser (same object) and is
+   therefore reported by the record; any other change of the 16 header bytes is reported by one of the three *)
+Lemma tamper_header_reported_l v2 l l' h :
+  header_parse v2 l = Ok h -> header_as_parsed v2 l h = true -> length l = length l' -> firstn 16 l <> firstn 16 l' ->
+  (match header_parse v2 l' with Err _ => True | Ok h' => h' = h -> header_as_parsed v2 l' h' = false end) /\
+  (firstn 14 l = firstn 14 l' -> header_parse v2 l' = Ok h /\ header_as_parsed v2 l' h = false).
+Proof.
+  intros HP HS HL HD.
+  assert (K : header_as_parsed v2 l' h = false).
+  { unfold header_as_parsed in *. apply eqb_list_spec in HS.
+    destruct (eqb_list (header_reexport v2 h) (firstn 16 l')) eqn:E; [|reflexivity].
+    apply eqb_list_spec in E. exfalso. apply HD. now rewrite <- HS, <- E. }
+  split.
+  - destruct (header_parse v2 l') as [h'|]; [|exact I]. now intros ->.
+  - intros H14. split; [|exact K]. rewrite <- HP. symmetry. now apply header_parse_ignores_reserved.
+Qed.
+
+Example tamper_header_nonvacuous :
+  let l := [0; 16; 0; 135; 2; 0; 0; 0; 7; 0; 3; 0; 16; 0; 0; 0]%N in
+  let l' := [0; 16; 0; 135; 2; 0; 0; 0; 7; 0; 3; 0; 16; 0; 1; 0]%N in
+  header_parse false l = Ok (16, 2, 7, 3, 0, 16) /\ header_as_parsed false l (16, 2, 7, 3, 0, 16) = true /\
+  firstn 14 l = firstn 14 l' /\ firstn 16 l <> firstn 16 l'.
+Proof. repeat split; try reflexivity. vm_compute. intros E; discriminate E. Qed.
+
 
 (* ------------------------------------------------------------------ verifier range checks *)
 Lemma check_passes_spec n f k lo hi v : (k = 0 \/ k = 1) ->
@@ -1044,3 +1077,55 @@ Example entry_hash_nonvacuous :
              is_ok (ahab_export demo_params demo_cfg) = true /\
              map (fun c => map (img_abs c) (c_images c)) cs = [[8192; 9216]; [10240]].
 Proof. eexists. split; [vm_compute; reflexivity|]. vm_compute. repeat split. Qed.
+
+(* ------------------------------------------------------------------ automatic offsets are aligned *)
+Definition off_align (p : params) (e : iae) : Z := Z.max (valid_alignment p e) (p_min_align p).
+(* every image starts on the alignment boundary required by the image before it (the very first one on `al`) *)
+Fixpoint achain (p : params) (coff al : Z) (l : list iae) : Prop :=
+  match l with [] => True | e :: t => (i_raw_off e + coff) mod al = 0 /\ achain p coff (off_align p e) t end.
+Fixpoint last_al (p : params) (al : Z) (l : list iae) : Z := match l with [] => al | e :: t => last_al p (off_align p e) t end.
+Fixpoint achain_all (p : params) (al : Z) (cs : list container) : Prop :=
+  match cs with [] => True | c :: t => achain p (c_coff c) al (c_images c) /\ achain_all p (last_al p al (c_images c)) t end.
+
+Lemma assign_images_aligned p coff : forall l off al,
+  (forall e, In e l -> i_raw_off e + coff <= 0) -> off mod al = 0 ->
+  let r := assign_images p coff off l in
+  achain p coff al (snd r) /\ fst r mod last_al p al l = 0 /\ last_al p al (snd r) = last_al p al l.
+Proof.
+  induction l as [|e t IH]; intros off al H Ha; cbn [assign_images]; [simpl; auto|].
+  replace (0 <? i_raw_off e + coff) with false by (symmetry; apply Z.ltb_ge; apply H; now left).
+  specialize (IH (valid_offset p e (off + i_size e + i_gap e)) (off_align p e)).
+  destruct (assign_images p coff (valid_offset p e (off + i_size e + i_gap e)) t) as [off' t'] eqn:ER. cbn [fst snd] in *.
+  destruct IH as (I1 & I2 & I3); [intros x Hx; apply H; now right | apply zalign_mod, valid_align_pos |].
+  cbn [achain last_al set_off i_raw_off]. replace (off - coff + coff) with off by lia.
+  change (off_align p (set_off e (off - coff))) with (off_align p e). auto.
+Qed.
+
+Lemma offsets_aligned_l p : forall cs off al,
+  (forall c e, In c cs -> In e (c_images c) -> i_raw_off e + c_coff c <= 0) -> off mod al = 0 ->
+  achain_all p al (assign_offsets p off cs).
+Proof.
+  induction cs as [|c t IH]; intros off al H Ha; cbn [assign_offsets]; [exact I|].
+  pose proof (assign_images_aligned p (c_coff c) (c_images c) off al) as A.
+  destruct (assign_images p (c_coff c) off (c_images c)) as [off' l'] eqn:E. cbn [fst snd] in A.
+  destruct A as (A1 & A2 & A3); [intros e He; apply (H c e); [now left|assumption] | assumption |].
+  cbn [achain_all set_images c_coff c_images]. split; [assumption|]. rewrite A3. apply IH; [|assumption].
+  intros c0 e0 Hc0. apply H. now right.
+Qed.
+
+(* ------------------------------------------------------------------ sweep over the database: every family / target memory / version *)
+Definition fam_ok (fam : gen_family) : bool :=
+  let '(_, _, types, _, _, _, _) := fam in
+  forallb (fun tm => forallb (fun ty =>
+    let p := params_of fam tm (ty =? 2) in
+    (p_start p mod 1024 =? 0) && (0 <? p_tm_align p) && (0 <? p_min_align p) && (0 <? p_size_align p) && (0 <? p_max_cnt p)
+    && (0 <? p_max_img p) && (p_max_cnt p <=? 4)
+    && ((ty =? 2) || (p_max_cnt p * p_csize p <=? p_start p))) types) [0; 2; 3; 4].
+
+Lemma families_wf_l : forall fam, In fam gen_families -> fam_ok fam = true.
+Proof. apply forallb_forall. vm_compute. reflexivity. Qed.
+
+Example tamper_signed_range_nonvacuous :
+  exists cs c, ahab_update demo_params demo_cfg = Ok cs /\ nth_error cs 1 = Some c /\
+               (0 <? zlen' (signed_data false c)) = true /\ signed_as_parsed false (container_bytes false c) c = true.
+Proof. eexists. eexists. split; [vm_compute; reflexivity|]. split; [reflexivity|]. vm_compute. split; reflexivity. Qed.
